@@ -1,8 +1,21 @@
 HOOK_COMMITS = ["6a4e584", "ea7b97f", "d517c44"]
 NOT_APPLICABLE = {}
+SEARCH_NOTE = "Trusted: Lean kernel; axioms propext/Quot.sound/Classical.choice; the hand-written model of src/resolver.rs (tied by correspondence only: DepGraph::new, resolve_requirements, AuditGraph::build edge dump, search in all three modes, resolve); harness generators/interning; semver ordering and VersionReq::matches as an oracle table; BinaryHeap tie behaviour (equal keys are value-equal). Not modelled: --filter-graph, extra_audits_file. Resolve-level theorems (C01_sound, C02_failures_exact, C12_fully_*) are stated and being proved on top of the search and build theorems; until they land the level is partial: the kernel-checked part is the path search."
 CLAIMS = {
+ "C01": {
+  "text": "Partial proof: search soundness on the model of search_for_path for all graphs/criteria/modes (a returned path is a walk of usable edges from source to target; search_sound) and fuel sufficiency; tied to the code by exact-output correspondence of build/search/resolve and by an oracle that recomputes, from the records alone (independent reachability + independent demand fixpoint), that every required pair of a passing real verdict has a certifying chain.",
+  "note": SEARCH_NOTE,
+ },
+ "C02": {
+  "text": "Partial proof: search completeness (when the search gives up the visited set is exactly the reachable set and excludes the target; search_complete) and termination within the fuel bound; tied to the code by exact-output correspondence and by an oracle comparing the real failure list with the uncertified pairs recomputed from the records, and the conclusion priority with an independent conflict test.",
+  "note": SEARCH_NOTE,
+ },
+ "C12": {
+  "text": "Partial proof: minimax optimality of the path search over the nine caveat levels (search_minimax: the chosen path minimises the greatest caveat level over all walks), which is what makes exemptions used only when audits do not suffice; tied by exact-path correspondence in all three search modes and by an oracle on the real success classes (fully-audited iff an exemption-free chain exists per the records; always when stale audits/grants suffice).",
+  "note": SEARCH_NOTE,
+ },
  "C05": {
-  "text": "Proof on the model of src/criteria.rs that a criteria list denotes the union of the per-criterion sets independent of order and duplication (C05_fromList_perm_dup, C05_fromList_append; the closure/minimal-set theorems are being completed, see level_note), tied to the code by an exhaustive-small-scope + random correspondence of CriteriaMapper::new / criteria_from_list / minimal_indices and by closure, minimal-set and metamorphic verdict-invariance oracles run on the real resolver.",
+  "text": "Proof on the model of src/criteria.rs: the set computed per criterion is exactly the reflexive-transitive implication closure for every accepted table (C05_closure_spec), the constructor accepts exactly the well-formed acyclic tables and never runs out of fuel (C05_new_ok_iff), a list denotes the union of closures independent of order/duplication (C05_fromList_spec/_perm_dup/_append), and replacing a list by its closure or by the minimal generating set cargo-vet prints denotes the same set, without implied duplicates (C05_fromList_closure, C05_minimal_denotes, C05_minimal_irredundant); tied to the code by an exhaustive-small-scope + random correspondence of CriteriaMapper::new / criteria_from_list / minimal_indices and by closure, minimal-set and metamorphic verdict-invariance oracles run on the real resolver.",
   "note": "Trusted: Lean kernel; axioms propext/Quot.sound/Classical.choice; the hand-written model (tied by correspondence only); harness generators/interning. Assumed: std collections' iteration order; debug-profile integer semantics (CriteriaSet::all(64) wrap-around in release not covered). Violation lists are read item-by-item by documented design and are rewritten only as that semantics allows.",
  },
 }
